@@ -40,7 +40,8 @@
 //!            connection is opened over every 4-tuple that was used (hook H3
 //!            pins the client port); all must succeed.
 //!
-//! Known findings (see the `TOLERATE_F_C13_n` constants; `replays/C13/known-F-C13-n-*.json` are
+//! Known findings (tolerated only while `is_known("F-C13-n")`, i.e. status "known" in
+//! `known_findings.json`; `replays/C13/known-F-C13-n-*.json` are
 //! the probe scenarios, run with `strict: true` through sub `probe-F-C13-n`, which gives their
 //! failure the dedicated signature `F-C13-n:<clause>`):
 //!
@@ -74,17 +75,25 @@ use turmoil_net::KernelConfig;
 
 pub const PROP: super::Prop = super::Prop { id: "C13", level: "exploration", check, replay };
 
-/// While F-C13-1 is a known (unfixed) finding the random tier tolerates the
-/// residue the model attributes to it.  Set to `false` once it is fixed.
-const TOLERATE_F_C13_1: bool = true;
-/// Same for F-C13-2 (orphaned FIN_WAIT2 that never hears from its peer).
-const TOLERATE_F_C13_2: bool = true;
-/// Same for F-C13-3 (segments of an older incarnation of a 4-tuple are accepted by the newer one).
-const TOLERATE_F_C13_3: bool = true;
-/// Same for F-C13-4 (backlog of a wildcard listener counted per destination address).
-const TOLERATE_F_C13_4: bool = true;
-/// Same for F-C13-5 (closing a wildcard listener resets half-open children of the other family's listener).
-const TOLERATE_F_C13_5: bool = true;
+/// `true` while `known_findings.json` (under `VERIF_ROOT`) lists `id` for property C13 with status
+/// "known".  Every tolerance below exists because of one of F-C13-1..5 and is active only while
+/// that finding is *known*: the residue / result the model attributes to it is then skipped and
+/// counted (`Outcome::exclude`).  An entry with status "fixed" (or no entry) suppresses nothing:
+/// the random search asserts the full clause again and reports the natural signature if the
+/// defect returns; the probe replay stays in the corpus as a regression test.
+pub fn is_known(id: &str) -> bool {
+    static KNOWN: std::sync::OnceLock<Vec<String>> = std::sync::OnceLock::new();
+    KNOWN
+        .get_or_init(|| {
+            crate::engine::load_findings()
+                .into_iter()
+                .filter(|f| f.property == "C13" && f.status == "known")
+                .map(|f| f.id)
+                .collect()
+        })
+        .iter()
+        .any(|k| k == id)
+}
 
 const PORTS: [u16; 2] = [7000, 7001];
 const EPH_BASE: u16 = 7100;
@@ -548,7 +557,7 @@ impl<'a> Sim<'a> {
         let obj = self.lsts[li].obj.take();
         drop(obj);
         let (lport, lv4, lwild) = (self.lsts[li].local.port(), self.lsts[li].local.is_ipv4(), self.lsts[li].local.ip().is_unspecified());
-        if lwild {
+        if lwild && self.tol5 {
             for i in 0..self.atts.len() {
                 let a = &self.atts[i];
                 if a.dst_host == h && a.dst.port() == lport && a.dst.is_ipv4() != lv4 && !a.accepted && !a.server_ended && (a.result == Res::Pending || a.may_have_child) {
@@ -1648,11 +1657,11 @@ pub fn run(sc: &Scenario) -> Outcome {
     let mut sim = Sim {
         sc,
         live_safe: ls,
-        tol1: TOLERATE_F_C13_1 && !sc.strict,
-        tol2: TOLERATE_F_C13_2 && !sc.strict,
-        tol3: TOLERATE_F_C13_3 && !sc.strict,
-        tol4: TOLERATE_F_C13_4 && !sc.strict,
-        tol5: TOLERATE_F_C13_5 && !sc.strict,
+        tol1: is_known("F-C13-1") && !sc.strict,
+        tol2: is_known("F-C13-2") && !sc.strict,
+        tol3: is_known("F-C13-3") && !sc.strict,
+        tol4: is_known("F-C13-4") && !sc.strict,
+        tol5: is_known("F-C13-5") && !sc.strict,
         conns: (0..NHOSTS).map(|_| Vec::new()).collect(),
         lsts: Vec::new(),
         atts: Vec::new(),
@@ -1788,7 +1797,7 @@ fn check(tier: Tier, seed: u64) -> i32 {
             "loopback / own-address connections are folded inside Kernel::egress: no fates apply to them and their SYN retransmissions are invisible, so a folded SYN that meets a full backlog is only bounded, not predicted",
             "RST segments are not retransmitted; the plan drops one only in the drop_rst sub-class",
             "Listen results are not judged here (C17 does); a failed bind just leaves the model without that listener",
-            "known findings F-C13-1..5 are tolerated only on the objects the model attributes to them (counted under excluded_by_known_finding); their committed probe scenarios run with `strict` and assert the full clause; C13_STRICT=1 switches every tolerance off for a whole run (used to validate fixes: with the five proposed patches applied 1.2 million strict cases pass)",
+            "findings F-C13-1..5 are tolerated only while known_findings.json lists them with status \"known\", and then only on the objects the model attributes to them (counted under excluded_by_known_finding); with status \"fixed\" the full clause is asserted again; their committed probe scenarios run with `strict` and assert the full clause; C13_STRICT=1 switches every tolerance off for a whole run (used to validate fixes: with the five proposed patches applied 1.2 million strict cases pass)",
         ],
     )
 }
